@@ -12,7 +12,7 @@ INTERFACES = "L5 sessions: Runtime::execute(n) with every quantum, Runtime::inte
 PROFILES = ["dev"]
 CASE_TIMEOUT = 0.5
 MODEL_CASE_TIMEOUT = 5.0
-RULE = ("generated programs (FOR, GOSUB, WHILE, ON..GOSUB, FN calls, INPUT, no layout-dependent print items); the same session under "
+RULE = ("generated programs (FOR, GOSUB, WHILE, ON..GOSUB, FN calls, INPUT, no layout-dependent print items) and fixed programs that wait for keys (INKEY$ in a statement, inside an expression, in a subroutine, in a WHILE condition, in a subscript), interrupted while each wait is pending; the same session under "
         "quanta 1,2,3,5,7,64,5000; an interrupt after every k-th execute(1) call (all k up to the run length, capped per program), "
         "with and without an inspecting direct statement, then CONT; STOP and END inserted at every statement boundary, then CONT; "
         "non-trivial = the interruption lands inside a loop, subroutine or expression (output continues after CONT); distinct = (program, k)")
@@ -95,6 +95,30 @@ def gen(tier, rng):
         conts = [sess.E("CONT"), "R5000"] if any("THEN END" in l for l in prog) else ["K5000"] * 6      # END stops without ?BREAK
         calls = base_calls(prog) + [sess.E("RUN"), "R5000"] + conts + [sess.E(DUMP), "R5000"]
         cases.append(Case(sess.session(calls), sig=key + "\n#with STOP/END: " + " / ".join(prog), tag="stop-cont", meta=("stop", pi, ("STOP", "if"))))
+        pi += 1
+    # programs that wait for a key (INKEY$): the interrupt arrives while the program waits, or at any instruction around
+    # the wait; CONT must come back to the same wait, and the key given then must be the one the statement receives
+    keyprogs = [(["10 PRINT \"a\";", "20 S$=INKEY$:PRINT \"<\";S$;\">\";", "30 A=A+1:IF A<3 THEN 20", "40 PRINT \"end\";A;"], ["x", "", "yz"]),
+                (["10 T$=\"p\"+INKEY$+\"q\"+INKEY$:PRINT T$;", "20 PRINT LEN(T$);"], ["k", "\u00e9"]),
+                (["10 FOR I%=1 TO 2:GOSUB 100:NEXT:PRINT \"done\";:END", "100 U$=U$+\"[\"+INKEY$+\"]\":PRINT LEN(U$);:RETURN"], ["1", "22"]),
+                (["10 WHILE INKEY$<>\"q\":A=A+1:PRINT A;:WEND:PRINT \"out\";"], ["a", "b", "q"]),
+                (["10 DIM P(3):P(LEN(INKEY$))=LEN(INKEY$)+7:PRINT P(0);P(1);P(2);"], ["k", "mm"])]
+    for prog, keys in keyprogs:
+        key = "\n".join(prog)
+        ans = ["A5000:" + sess.hx(k) for k in keys]
+        ref = base_calls(prog) + [sess.E("RUN"), "R5000"] + ans + [sess.E(DUMP), "R5000"]
+        cases.append(Case(sess.session(ref), sig=key, tag="reference", meta=("ref", pi, None)))
+        for j in range(len(keys)):
+            for inspect in (False, True):
+                # interrupt exactly while the j-th wait is pending
+                c = base_calls(prog) + [sess.E("RUN"), "R5000"] + ans[:j] + ["I", "R5000"]
+                c += ([sess.E("Q8=Q8+1"), "R5000"] if inspect else []) + [sess.E("CONT"), "R5000"] + ans[j:] + [sess.E(DUMP), "R5000"]
+                cases.append(Case(sess.session(c), sig=key + "\n#interrupt while waiting for key %d%s" % (j + 1, " + inspect" if inspect else ""),
+                                  tag="key-wait", meta=("interrupt", pi, 2 + j)))
+        for k in range(2, 26):
+            # interrupt after k single-instruction calls (calls made while a key is wanted ask for it again)
+            c = base_calls(prog) + [sess.E("RUN")] + ["X1"] * k + ["I", "R5000", sess.E("CONT"), "R5000"] + ans + [sess.E(DUMP), "R5000"]
+            cases.append(Case(sess.session(c), sig=key + "\n#interrupt after %d calls (key waits)" % k, tag="key-wait", meta=("interrupt", pi, k)))
         pi += 1
     return cases
 
